@@ -362,7 +362,7 @@ def obs_tokens(mat):
 
 
 # ----------------------------------------------------------------------------------------------- running
-def run_harness(ctx, exe, lines, timeout=None, max_restarts=3):
+def run_harness(ctx, exe, lines, timeout=None, max_restarts=2):
     """one case per line; returns for each line {"tags": {tag: (r, c, [tokens])}, "x": str|None,
     "crash": str|None, "skipped": bool}; a process death / hang is attributed to the case announced last and the
     rest is re-run (at most max_restarts times; what is left after that is marked skipped, not judged)"""
@@ -641,9 +641,9 @@ def evaluate_sp(ctx, exes, cases, stats, shrink=True):
                    "exception": "the real routine throws (build %s, threads %s): %s",
                    "garbage": "unusable output (build %s, threads %s): %s"}[kind] % (key[0], key[1], str(text)[:500])
             cc = c
-            if shrink and len(ctx._violations) < 2:
-                cc = shrink_sp(ctx, exes, c, lambda x: sp_fails(ctx, exes, x, crash_only=True, only=[key]),
-                               budget=15 if "timeout" in str(text) else 60)
+            if shrink and len(ctx._violations) < 2 and "timeout" not in str(text):
+                # (a hang is not shrunk: every probe would cost a full timeout)
+                cc = shrink_sp(ctx, exes, c, lambda x: sp_fails(ctx, exes, x, crash_only=True, only=[key]))
             ctx.violation(strip(cc), why)
         for sig, key in entry["distinct"].items():
             full, land, prob = entry["configs"][key]
